@@ -15,6 +15,9 @@ UNIT = dict(
 def obligations(tier):
     obs = []
     def add(i, entry, fn, serves, unwind=None, **kw):
+        if 'sizeclass' not in i and 'pageround' not in i:
+            # the pool properties overlap (a wrong carve breaks validity, accounting and in-place realloc alike): every pool run serves C01-C04
+            serves = sorted(set(serves) | {'C01', 'C02', 'C03', 'C04'})
         o = dict(id='slab.' + i, entry=entry, cls='Pc', serves=serves, function=fn, unwind=unwind, recursion=2, timeout=900, cost=(10 if 'small' in i or 'construct_slab' in i else 1))
         o.update(kw)
         obs.append(o)
@@ -32,6 +35,12 @@ def obligations(tier):
         for ln in ((300,) if tier == 'quick' else (257, 300, 768, 4096)):
             add('%s.allocate_large.len%d' % (p, ln), 'h_%s_allocate_large' % p, '%s_allocate' % p, ['C01', 'C03', 'C04', 'C05'], unwind=8, defines=['ALLOC_LEN=%d' % ln], bound='request of %d bytes (page rounding is proved for every length in pa.pageround)' % ln)
     lens = {0: [0, 1, 8], 1: [9, 16], 2: [17, 32], 3: [33, 64], 4: [65, 128], 5: [129, 200, 256]}
+    # the carving loop on the success path of map (addresses concrete): every size class in quick
+    for p in ('pa',):
+        for idx in ((5, 3) if tier == 'quick' else range(6)):
+            add('%s.construct_slab_ok.class%d' % (p, idx), 'h_%s_construct_slab' % p, '%s__construct_slab' % p, ['C01', 'C03', 'C05'],
+                unwind=0x400 // (8 << idx) + 4, defines=['SLAB_INDEX=%d' % idx, 'MAP_SUCCEEDS'], bound='size class %d (%d-byte objects): carving loop fully unrolled; Policy::map succeeds' % (idx, 8 << idx),
+                cost=20, timeout=1500)
     for p in ('pa', 'pu'):
         for idx in range(6):
             if idx >= 5:
@@ -42,13 +51,27 @@ def obligations(tier):
         for ln in (lens[idx][-1:] if tier == 'quick' and idx not in (0, 5) else lens[idx]):
             add('pa.allocate_small_hit.class%d.len%d' % (idx, ln), 'h_pa_allocate_small_hit', 'pa_allocate', ['C01', 'C02', 'C03', 'C05'], unwind=8,
                 defines=['MK_SLAB_IDX=%d' % idx, 'HIT_LEN=%d' % ln], bound='size class %d, request of %d bytes, slab with 1 or 2 free slots' % (idx, ln))
+    # the miss path (empty bucket: map a slab, carve it, hand out its first slot, attach it) on the success path of map
+    for idx, ln in (((5, 200), (3, 64)) if tier == 'quick' else ((5, 200), (5, 256), (4, 128), (3, 64), (2, 32), (1, 16), (0, 0), (0, 8))):
+        add('pa.allocate_small_miss_ok.class%d.len%d' % (idx, ln), 'h_pa_allocate_small_miss', 'pa_allocate', ['C01', 'C02', 'C03', 'C05'], unwind=0x400 // (8 << idx) + 4,
+            defines=['SLAB_INDEX=%d' % idx, 'HIT_LEN=%d' % ln, 'MAP_SUCCEEDS'], bound='size class %d, request of %d bytes, empty bucket; Policy::map succeeds' % (idx, ln), cost=20, timeout=1500)
     add('pa.free_in_slab', 'h_pa_free_in_slab', 'pa_free_in_slab_', ['C02', 'C03', 'C05'], unwind=8)
     rep = ['pa_allocate/pa_allocate_contract', 'pa_free/pa_free_contract']
     for ns in ((5, 257) if tier == 'quick' else (0, 5, 256, 257, 600)):
         add('pa.realloc_slab.new%d' % ns, 'h_pa_realloc_slab', 'pa_realloc', ['C02', 'C03', 'C04', 'C05'], unwind=8, replace=rep,
             defines=['RS_NEW=%d' % ns], bound='realloc of any block of any slab class to %d bytes; allocate/free replaced by their contracts' % ns)
+    for a_, n_ in (((0x200, 0x300),) if tier == 'quick' else ((0x200, 0x300), (0x100, 0x101), (0x400, 0x1000))):
+        add('pa.realloc_large_move.%x_%x' % (a_, n_), 'h_pa_realloc_large_move', 'pa_realloc', ['C01', 'C02', 'C03', 'C04', 'C05'], unwind=8, replace=rep,
+            defines=['RL_AREA=%d' % a_, 'RL_NEW=%d' % n_], bound='realloc of a large block with a %#x-byte area to %#x bytes; allocate/free replaced by their contracts' % (a_, n_))
     add('pa.realloc_null', 'h_pa_realloc_null', 'pa_realloc', ['C02'], unwind=8, replace=rep)
     for p in ('pa', 'pu'):
         add('%s.free_null' % p, 'h_%s_free_null' % p, '%s_free' % p, ['C02'], unwind=8)
         add('%s.free_large' % p, 'h_%s_free_large' % p, '%s_free' % p, ['C02', 'C03', 'C05'], unwind=8, tiers=['thorough'], heavy=True, timeout=3000)
+    # dispatch on large blocks with Policy::map succeeding (addresses stay concrete, which keeps these in the quick tier)
+    for p in ('pa', 'pu'):
+        add('%s.free_large_ok' % p, 'h_%s_free_large' % p, '%s_free' % p, ['C01', 'C02', 'C03', 'C05'], unwind=8, defines=['MAP_SUCCEEDS'], timeout=1500, cost=20)
+    pairs = ((300, 700), (300, 500), (700, 300)) if tier == 'quick' else ((300, 700), (300, 500), (300, 512), (300, 513), (700, 300), (4096, 4097), (257, 256))
+    for o_, n_ in pairs:
+        add('pa.realloc_large_ok.%d_%d' % (o_, n_), 'h_pa_realloc_large', 'pa_realloc', ['C01', 'C02', 'C03', 'C04', 'C05'], unwind=8,
+            defines=['MAP_SUCCEEDS', 'RE_OLD=%d' % o_, 'RE_NEW=%d' % n_], bound='realloc of a large block of %d bytes to %d bytes; Policy::map succeeds' % (o_, n_), timeout=1500, cost=20)
     return obs
